@@ -48,6 +48,15 @@ func syntaxOf(lang string) *syntax {
 // fileText renders a file with exactly f.Code code lines, f.Comment comment lines and f.Blank blank
 // lines; the layout (interleaving, comment style, blank style, final newline, line ending) is chosen
 // by the layout seed and the path.
+// A short file is written with branching code lines, a long one with straight-line code: complexity and length are
+// anti-correlated, so an ordering that looks at anything but the number of code lines shows.
+var branching = map[string]string{
+	"Java": "if (v%d > %d) { foo.bar(1, 2); } else { foo.bar(3, 4); }", "Go": "if v%d > %d { fmt.Println(1) } else { fmt.Println(2) }",
+	"JavaScript": "if (v%d > %d) { console.log(1); } else { console.log(2); }", "C": "if (v%d > %d) { x1 += 1; } else { x1 -= 1; }",
+	"Kotlin": "if (v%d > %d) { println(1) } else { println(2) }", "TypeScript": "if (v%d > %d) { let a = 1; } else { let b = 2; }",
+	"Python": "x%d = 1 if v1 > %d else 2",
+}
+
 func fileText(f File) (string, error) {
 	sx := syntaxOf(f.Lang)
 	if sx == nil {
@@ -80,7 +89,11 @@ func fileText(f File) (string, error) {
 		case 'c':
 			n++
 			indent := strings.Repeat("  ", rnd.Intn(3))
-			lines = append(lines, indent+fmt.Sprintf(sx.code[rnd.Intn(len(sx.code))], n, n*3+1))
+			tmpl := sx.code[rnd.Intn(len(sx.code))]
+			if b, ok := branching[sx.name]; ok && f.Code <= 3 {
+				tmpl = b
+			}
+			lines = append(lines, indent+fmt.Sprintf(tmpl, n, n*3+1))
 			i++
 		case 'b':
 			lines = append(lines, []string{"", "", "  ", "\t", " \t "}[rnd.Intn(5)])
